@@ -247,3 +247,34 @@ Theorem C03_code_block_ends_nonblank :
                  /\ sl < last /\ is_empty st (last - 1) = Ok false.
 Proof. exact code_block_ends_nonblank. Qed.
 Print Assumptions C03_code_block_ends_nonblank.
+
+(* ---- containment in the enclosing container's own map ------------------------------------------------------ *)
+(* the block quote rule, with any nested block loop that meets the loop's contract (rec_c: proved for ParserBlock.tokenize
+   at every depth, C03_nested_tokenize_maps) and any terminator callback that only answers: the blockquote_open token carries
+   exactly the line range the rule consumed as its map, and every token between it and blockquote_close has its map inside
+   that range *)
+Theorem C03_quote_contains :
+  forall cfg rec term, rec_c rec -> term_fr term -> forall st sl el st',
+  r_blockquote cfg rec term st sl el false = Ok (true, st') -> pre st sl el ->
+  exists op seg cl, b_tokens st' = b_tokens st ++ op :: seg ++ [cl]
+    /\ tmap op = Some (sl, b_line st') /\ ttype op = [98; 108; 111; 99; 107; 113; 117; 111; 116; 101; 95; 111; 112; 101; 110]
+    /\ Forall (map_in sl (b_line st')) seg /\ tmap cl = None.
+Proof. exact r_blockquote_contains. Qed.
+Print Assumptions C03_quote_contains.
+
+(* the list rule: the list token carries the line range of the whole list; between it and the closing token the maps are those
+   of a sequence of items (mseq), each  list_item_open [a, b)  followed by tokens with maps inside [a, b) and a closing token,
+   item after item, the last one ending where the list ends - also after markTightParagraphs *)
+Theorem C03_list_contains :
+  forall cfg rec term, rec_c rec -> term_fr term -> forall st sl el st',
+  r_list cfg rec term st sl el false = Ok (true, st') -> pre st sl el ->
+  exists lo its lc, b_tokens st' = b_tokens st ++ lo :: its ++ [lc]
+    /\ tmap lo = Some (sl, b_line st') /\ tmap lc = None /\ mseq sl (b_line st') (map tmap its).
+Proof. exact r_list_contains. Qed.
+Print Assumptions C03_list_contains.
+
+Definition C03_mseq_means :
+  (forall a b ms, Forall (mp_in a b) ms -> mseq a b (Some (a, b) :: ms ++ [None]))
+  /\ (forall a b c ms rest, Forall (mp_in a b) ms -> mseq b c rest -> mseq a c ((Some (a, b) :: ms ++ [None]) ++ rest))
+  /\ (forall a b x y, mp_in a b (Some (x, y)) <-> a <= x /\ x < y /\ y <= b)
+  := conj mseq_one (conj mseq_more (fun a b x y => conj (fun h => h) (fun h => h))).
